@@ -131,17 +131,10 @@ def check_depth_terms(prog, rep, impl, dfun, site, wt, rec, np_terms, entry):
     rep.add('P7b', impl, entry, 'threshold = %s' % tshow(other, 120), impl.node.lineno, okmp,
             'the fallback threshold must be the corner-to-corner distance of the raster under the chosen metric; ' + whymp)
     # the two branches
-    def branch(t, whole):
-        def decide(c):
-            if tkey(c) == tkey(conds[0]):
-                return whole == whole_when if not neg else whole == whole_when
-            return none_false(c)
-        return resolve(t, decide)
     # (conds[0] true <=> whole raster) iff whole_when, with the `not` wrappers folded into whole_when
     def pick(t, whole):
-        truth = whole if whole_when else not whole
-        if neg:
-            truth = not truth
+        # whole_when: the value of the condition as written (negations included) under which the whole raster is taken
+        truth = (whole == whole_when)
         return resolve(t, lambda c: truth if tkey(c) == tkey(conds[0]) else none_false(c))
     wd = [pick(c_, True) for c_ in comps]
     ok0 = all(x[0] == 'const' and isinstance(x[1], int) and not isinstance(x[1], bool) and x[1] >= 0 for x in wd)
